@@ -9,8 +9,11 @@ class and full view (visititems + attributes + values) after every step, raw con
 at the end — against the overlay model, and on a plain h5py.File against the specification
 tree of the model.  Synthetic container stacks (written with raw h5py calls into real record
 files, also shapes the write path never produces) are read through the overlay and compared
-with the model's read path.  Oracle for the failing-input search (no model involved): IH5Record vs.
-h5py.File in lock-step on the same history.
+with the model's read path.  Boundaries are observable steps: the full view is taken directly after every
+commit_patch + create_patch and after every close + reopen (by record name, by file list; random
+positions), and at the end of every history after the final commit and after reopening read-only
+both ways — nothing may change there (C01_boundary_invisible).  Oracle for the failing-input
+search (no model involved): IH5Record vs. h5py.File in lock-step on the same history.
 """
 from __future__ import annotations
 
@@ -67,9 +70,9 @@ VALUES = ["i:0", "i:1", "i:7", "i:42", "i:-3", "v:00", "v:7f00", "v:417f", "v:de
 
 def _both(ops, op_timeout):
     try:
-        a = ih5lib.exec_ih5(ops, op_timeout=op_timeout)
+        a = ih5lib.exec_ih5(ops, op_timeout=op_timeout, final_stages=True)
     except Exception as e:  # noqa: BLE001
-        a = {"steps": [["H", f"harness: {type(e).__name__}: {e}"[:200]]] * len(ops), "raw": None}
+        a = {"steps": [["H", f"harness: {type(e).__name__}: {e}"[:200]]] * max(1, len(ops)), "raw": None, "final": []}
     b = ih5lib.exec_h5(ops)
     return a, b
 
@@ -102,8 +105,26 @@ def first_diff(ih5, h5) -> Optional[Dict[str, Any]]:
             only_i = [e for e in s[1] if e not in t[1]][:3]
             only_h = [e for e in t[1] if e not in s[1]][:3]
             cls = "resurrected" if only_i and not only_h else ("hidden" if only_h and not only_i else "tree")
-            return {"step": i, "cls": cls, "what": "tree differs from plain HDF5", "only_in_ih5": only_i, "only_in_h5": only_h}
+            after = " although the plain tree did not change in this step (boundary / reopen)" if s[0] == "T" and _is_bnd_view(ih5, h5, i) else ""
+            return {"step": i, "cls": cls, "what": "tree differs from plain HDF5" + after, "only_in_ih5": only_i, "only_in_h5": only_h}
+    # the committed, closed and reopened record (by name, by file list) must show the same tree
+    last = h5["steps"][-1][1] if h5["steps"] else []
+    for stage, view in ih5.get("final", []):
+        if view != last:
+            n = len(h5["steps"])
+            if view and view[0] in ("READ-ERROR", "READ-TIMEOUT"):
+                return {"step": n, "cls": "read-error", "stage": stage, "what": f"{stage}: reading the record fails: {view[1:]}"}
+            only_i = [e for e in view if e not in last][:3]
+            only_h = [e for e in last if e not in view][:3]
+            cls = "resurrected" if only_i and not only_h else ("hidden" if only_h and not only_i else "tree")
+            return {"step": n, "cls": cls, "stage": stage, "what": f"{stage}: tree differs from plain HDF5 (nothing may change at a boundary / reopen)",
+                    "only_in_ih5": only_i, "only_in_h5": only_h}
     return None
+
+
+def _is_bnd_view(ih5, h5, i):
+    """The plain tree did not change in step i (a boundary / reopen or a refused operation)."""
+    return i > 0 and h5["steps"][i][1] == h5["steps"][i - 1][1]
 
 
 def oracle_fails(ops, op_timeout=OP_TIMEOUT) -> Optional[Dict[str, Any]]:
@@ -135,18 +156,20 @@ def canon_history(ops) -> List[Any]:
             out.append([t, [k(x) for x in op[1]], "@" + k("@" + op[2])])
         elif t in ("copy", "move"):
             out.append([t, [k(x) for x in op[1]], [k(x) for x in op[2]]])
+        elif t == "reopen":
+            out.append([t, op[1]])
         else:
             out.append([t])
     return out
 
 
 def _paths(op):
-    return [op[1], op[2]] if op[0] in ("copy", "move") else ([op[1]] if op[0] != "bnd" else [])
+    return [op[1], op[2]] if op[0] in ("copy", "move") else ([op[1]] if op[0] not in ("bnd", "reopen") else [])
 
 
 def _drop_key(op, key):
     """op with `key` removed from its paths; None if a node path would become empty."""
-    if op[0] == "bnd":
+    if op[0] in ("bnd", "reopen"):
         return op
     new = list(op)
     for i in ((1, 2) if op[0] in ("copy", "move") else (1,)):
@@ -182,6 +205,12 @@ def w_shrink(hit):
                 small, changed = cand, True
                 break
     small = vlib.ddmin(small, fails, budget=20)
+    # a reopen that can be a plain boundary, a boundary kind that does not matter
+    for i, o in enumerate(small):
+        if o[0] == "reopen":
+            cand = small[:i] + [["bnd"]] + small[i + 1:]
+            if fails(cand):
+                small = cand
     # simplify values: all equal where the failure survives
     cand = [([o[0], o[1], "i:1"] if o[0] == "set" else ([o[0], o[1], o[2], "i:1"] if o[0] == "aset" else o)) for o in small]
     if cand != small and fails(cand):
@@ -201,12 +230,41 @@ def norm_view(v):
 def _cap_boundaries(ops, maxb=5):
     out, nb = [], 0
     for o in ops:
-        if o[0] == "bnd":
+        if o[0] in ("bnd", "reopen"):
             nb += 1
             if nb > maxb:
                 continue
         out.append(o)
     return out
+
+
+def _boundary_variation(ops, rng, p_after_create=0.12, p_reopen=0.2):
+    """Boundaries directly after operations that create a node (an empty group, a dataset without
+    attributes, a node re-created over a deleted one), and boundaries turned into close + reopen
+    (by record name or by file list) at random positions."""
+    out = []
+    for o in ops:
+        out.append(o)
+        if o[0] in ("grp", "set") and rng.random() < p_after_create:
+            out.append(["bnd"])
+    return [(["reopen", rng.choice(["name", "files"])] if o[0] == "bnd" and rng.random() < p_reopen else o) for o in out]
+
+
+def model_ops(ops):
+    """The model (and the plain tree) know one kind of boundary."""
+    return [["bnd"] if o[0] == "reopen" else o for o in ops]
+
+
+def boundary_patterns() -> List[List[Any]]:
+    """Fixed shapes: a node re-created under a replaced group at a path older containers know, sealed at once."""
+    H = []
+    H.append([["set", ["a", "b", "x"], "i:1"], ["bnd"], ["del", ["a"]], ["grp", ["a"]], ["set", ["a", "y"], "i:2"], ["bnd"], ["grp", ["a", "b"]], ["bnd"]])
+    H.append([["set", ["a", "b", "x"], "i:1"], ["bnd"], ["del", ["a"]], ["grp", ["a"]], ["bnd"], ["grp", ["a", "b"]]])
+    H.append([["set", ["a", "b", "x"], "i:1"], ["aset", ["a", "b"], "k", "i:3"], ["reopen", "name"], ["del", ["a", "b"]], ["grp", ["a", "b"]], ["reopen", "files"], ["grp", ["a", "b", "x"]], ["bnd"], ["set", ["a", "b", "x", "y"], "i:1"]])
+    H.append([["grp", ["a"]], ["bnd"], ["del", ["a"]], ["bnd"], ["grp", ["a"]], ["reopen", "name"], ["del", ["a"]], ["grp", ["a"]]])
+    H.append([["set", ["d"], "i:1"], ["aset", ["d"], "k", "i:1"], ["bnd"], ["del", ["d"]], ["set", ["d"], "i:2"], ["bnd"], ["del", ["d"]], ["bnd"], ["set", ["d"], "i:3"], ["reopen", "files"]])
+    H.append([["set", ["a", "b", "c", "x"], "i:1"], ["bnd"], ["del", ["a", "b"]], ["bnd"], ["grp", ["a", "b", "c"]], ["bnd"], ["grp", ["a", "b", "c", "x"]], ["bnd"]])
+    return H
 
 
 def targeted(rng, keys, attr_keys) -> List[Any]:
@@ -217,7 +275,7 @@ def targeted(rng, keys, attr_keys) -> List[Any]:
     val = lambda: rng.choice(VALUES)  # noqa: E731
     ak = lambda: rng.choice(attr_keys)  # noqa: E731
     mb = lambda p=0.6: [["bnd"]] if rng.random() < p else []  # noqa: E731
-    shape = rng.randrange(5)
+    shape = rng.randrange(7)
     H: List[Any] = []
     if shape == 0:      # replace-then-touch chain across >= 3 containers
         H += [["set", [k[0], k[1]], val()]]
@@ -260,6 +318,21 @@ def targeted(rng, keys, attr_keys) -> List[Any]:
             H += [["copy", par[:rng.randint(1, len(par))], [k[4], k[0]] if rng.random() < 0.5 else [k[4]]]]
         else:
             H += [["grp", [k[4], k[2]]]]
+    elif shape >= 5:    # node re-created under a replaced / deleted ancestor at a path older containers know, sealed at once
+        bb = lambda: [rng.choice([["bnd"], ["bnd"], ["reopen", "name"], ["reopen", "files"]])]  # noqa: E731
+        H += [["set", [k[0], k[1], k[2]], val()]]
+        if rng.random() < 0.4:
+            H += [["grp", [k[0], k[3]]]]
+        H += bb()
+        victim = rng.choice([[k[0]], [k[0], k[1]]])
+        H += [["del", victim]] + (bb() if rng.random() < 0.4 else [])
+        H += [rng.choice([["grp", victim], ["grp", victim], ["set", victim + [k[4]], val()]])]
+        H += bb() if rng.random() < 0.75 else []
+        H += [rng.choice([["grp", [k[0], k[1]]], ["grp", [k[0], k[1], k[2]]], ["set", [k[0], k[1]], val()],
+                          ["set", [k[0], k[1], k[2]], val()], ["grp", [k[0], k[3]]], ["grp", [k[0], k[1], k[2], k[3]]]])]
+        H += bb()
+        if rng.random() < 0.5:
+            H += [rng.choice([["set", [k[0], k[1], k[4]], val()], ["aset", [k[0], k[1]], ak(), val()], ["grp", [k[0], k[1], k[2]]]])] + bb()
     else:               # delete / recreate of datasets with attributes, attribute carriers on datasets
         H += [["set", [k[0]], val()], ["aset", [k[0]], ak(), val()]] + mb()
         H += [["aset", [k[0]], ak(), val()]] + mb()
@@ -271,7 +344,7 @@ def targeted(rng, keys, attr_keys) -> List[Any]:
 
 def gen_cases(ctx) -> List[List[Any]]:
     rng = ctx.rng
-    cases = list(ih5lib.pattern_histories()) + prefix_patterns()
+    cases = list(ih5lib.pattern_histories()) + prefix_patterns() + boundary_patterns()
     ntarget = ctx.budget(120, 2000)
     nrand = ctx.budget(260, 4500)
     maxops = ctx.budget(20, 36)
@@ -285,7 +358,7 @@ def gen_cases(ctx) -> List[List[Any]]:
         ops = ih5lib.gen_history(rng, n, p_bnd=rng.choice([0.0, 0.1, 0.2, 0.35]), keys=keys,
                                  attr_keys=attr_keys, prefix=prefix, values=VALUES,
                                  allow_self_copy=(rng.random() < 0.25))
-        cases.append(_cap_boundaries(ops))
+        cases.append(_cap_boundaries(_boundary_variation(ops, rng)))
     return cases
 
 
@@ -300,7 +373,8 @@ def run(ctx: vlib.Ctx):
         "links (refused by the code)",
     ]
     cases = gen_cases(ctx)
-    model = vlib.run_model("c01", cases)
+    mcases = [model_ops(c) for c in cases]
+    model = vlib.run_model("c01", mcases)
     impl = vlib.pmap(w_both, cases, chunksize=2)
 
     disagreements: List[Dict[str, Any]] = []
@@ -310,12 +384,12 @@ def run(ctx: vlib.Ctx):
     conts_hist: Dict[str, int] = {}
     distinct = set()
     nontrivial = set()
-    raw_compared = 0
+    raw_compared = boundary_views = final_views = 0
     for ci, (ops, m, (ih5, h5)) in enumerate(zip(cases, model, impl)):
         msteps, mconts = m
         sig = vlib.signature(ops)
         distinct.add(sig)
-        nb = sum(1 for o in ops if o[0] == "bnd") + 1
+        nb = sum(1 for o in ops if o[0] in ("bnd", "reopen")) + 1
         conts_hist[str(nb)] = conts_hist.get(str(nb), 0) + 1
         for o in ops:
             opkinds[o[0]] = opkinds.get(o[0], 0) + 1
@@ -345,13 +419,21 @@ def run(ctx: vlib.Ctx):
                 disagreements.append({"kind": "model-vs-ih5", "case": ci, "step": i, "ops": ops[:i + 1],
                                       "model": [mr], "impl": [s[0]]})
                 break
-            if ops[i][0] == "bnd":
+            if ops[i][0] in ("bnd", "reopen"):
                 seen_bnd = True
+                boundary_views += 1
             elif s[0] == "T":
                 ok_steps += 1
                 if seen_bnd:
                     nontrivial.add(sig)
         else:
+            mlast = norm_view(msteps[-1][3]) if msteps else []
+            for stage, view in ih5.get("final", []):
+                final_views += 1
+                if view != mlast:
+                    disagreements.append({"kind": "model-vs-ih5-final", "case": ci, "ops": ops, "stage": stage,
+                                          "what": "view after final commit / close + reopen differs from the model view (C01_boundary_invisible)"})
+                    break
             if ih5["raw"] is not None:
                 raw_compared += 1
                 mc = [norm_view(c) for c in mconts]
@@ -390,7 +472,7 @@ def run(ctx: vlib.Ctx):
     #      dedupe by canonical signature, report
     groups: Dict[str, List[Dict[str, Any]]] = {}
     for h in sorted(oracle_hits, key=lambda h: (h["step"], len(h["ops"]))):
-        groups.setdefault(f"{h['cls']}/{h['ops'][h['step']][0]}", []).append(h)
+        groups.setdefault(f"{h['cls']}/{h['ops'][h['step']][0] if h['step'] < len(h['ops']) else h.get('stage', 'final')}", []).append(h)
     picked = [h for g in sorted(groups) for h in groups[g][:(1 if g.startswith("timeout") else 3)]][:36]
     shrunk = vlib.pmap(w_shrink, picked, chunksize=1) if picked else []
     seen = set()
@@ -402,6 +484,8 @@ def run(ctx: vlib.Ctx):
             continue
         small, d = r["ops"], r["diff"]
         sig = {"history": canon_history(small), "step": d["step"], "class": d["cls"]}
+        if d.get("stage"):
+            sig["stage"] = d["stage"]
         key = vlib.signature(sig)
         if key in seen:
             continue
@@ -417,7 +501,7 @@ def run(ctx: vlib.Ctx):
     if oracle_hits and not seen and unconfirmed < len(picked):
         ctx.notes.append("oracle hits present but none survived shrinking")
 
-    xc = vlib.coq_crosscheck("c01", cases, model, "c01", max_cases=ctx.budget(10, 40))
+    xc = vlib.coq_crosscheck("c01", mcases, model, "c01", max_cases=ctx.budget(10, 40))
     cov["evaluations"] = len(cases) + len(stacks)
     cov["distinct_nontrivial"] = len(nontrivial)
     cov["rule"] = ("fixed patterns + randomised targeted shapes (replace-then-touch over >=3 containers, create below deleted ancestors, "
@@ -430,6 +514,8 @@ def run(ctx: vlib.Ctx):
     cov["input_distribution"] = {"histories": len(cases), "distinct_histories": len(distinct), "steps": nsteps,
                                  "steps_succeeding": ok_steps, "op_kinds": opkinds,
                                  "containers_per_history": conts_hist, "raw_container_sets_compared": raw_compared,
+                                 "views_compared_directly_after_a_boundary_or_reopen": boundary_views,
+                                 "views_compared_after_final_commit_and_reopen": final_views,
                                  "synthetic_raw_stacks": len(stacks),
                                  "synthetic_raw_stacks_where_pinned_rule_differs": raw_pinned_differs}
     cov["traces_validated_against_impl"] = len(cases) - len({d["case"] for d in disagreements if "case" in d})
